@@ -1,4 +1,5 @@
 //@host src/io_loop/mod.rs
+//@quick (the oracle does not depend on wall-clock time - sleeps only pace the scenario, time-outs only matter when something hangs: also runs in the quick tier, labelled bounded)
 // C18 / C01 bounded stand-in, end to end through the public API (real I/O thread, in-memory transport with a write budget).
 // Tunings (mem_channel_bound, high water, low water) x number of publishing channels x stall patterns:
 //   the transport accepts nothing (budget 0) while publisher threads publish numbered messages; a channel is opened and another closed
@@ -7,18 +8,17 @@
 // the tuning (high water + what the bounded in-memory channels can hold + one message per publisher); once the transport drains every
 // blocked publisher resumes (all threads finish), and every message accepted before, during and after the stall arrives exactly once, whole
 // and in publishing order per channel; the byte stream the transport saw splits into whole frames whatever the fragmentation (C01).
-// Bound: the grid below (count printed); waits use generous timeouts that only matter when something hangs.
+// Bound: the grid below (count printed), plus 6 scenarios with 3 concurrent publishers of 70 000 / 100 000 byte bodies; waits use generous timeouts that only matter when something hangs.
 include!("/verif/witness/_common/live_broker.rs");
 use crate::{Auth, Channel, Connection, ConnectionOptions, ConnectionTuning, Error, Publish};
 use std::sync::atomic::{AtomicUsize, Ordering};
 use std::thread;
 
 const T: Duration = Duration::from_secs(20);
-const BODY: usize = 3000;
-const PER_PUBLISHER: usize = 40;
 
-fn run(bound: usize, high: usize, low: usize, publishers: usize) {
-    let what = format!("mem_channel_bound={} high={} low={} publishers={}", bound, high, low, publishers);
+#[allow(non_snake_case)]
+fn run(bound: usize, high: usize, low: usize, publishers: usize, BODY: usize, PER_PUBLISHER: usize) {
+    let what = format!("mem_channel_bound={} high={} low={} publishers={} body={}", bound, high, low, publishers, BODY);
     let ctl = Handle::new();
     let tuning = ConnectionTuning::default().mem_channel_bound(bound).buffered_writes_high_water(high).buffered_writes_low_water(low);
     let mut connection = Connection::insecure_open_stream(LiveBroker::new(ctl.clone()), ConnectionOptions::<Auth>::default().heartbeat(0), tuning).expect("handshake");
@@ -158,7 +158,7 @@ fn verif_sweep_c18_stalls_bound_buffering_and_lose_nothing() {
             // a scenario that hangs (a publisher or a flush that never resumes) is a failure, not a timeout of the test harness
             let (tx, rx) = std::sync::mpsc::channel();
             thread::spawn(move || {
-                run(bound, high, low, publishers);
+                run(bound, high, low, publishers, 3000, 40);
                 let _ = tx.send(());
             });
             match rx.recv_timeout(Duration::from_secs(60)) {
@@ -169,4 +169,15 @@ fn verif_sweep_c18_stalls_bound_buffering_and_lose_nothing() {
         }
     }
     println!("C18 sweep: {} scenarios", count);
+}
+
+// the same with bodies of 100 000 and 70 000 bytes (one body frame each, larger than any hand-over or socket-write granularity below frame_max
+// = 131 072): several threads publish concurrently through a stall and a stepwise drain; every frame must still be whole on the wire (C01)
+#[test]
+fn verif_sweep_c01_big_frames_of_concurrent_publishers_stay_whole() {
+    for &(bound, high, low) in &[(1usize, 0usize, 0usize), (4, 10_000, 5_000), (16, 200_000, 50_000)] {
+        for &body in &[100_000usize, 70_000] {
+            with_watchdog(format!("mem_channel_bound={} high={} low={} publishers=3 body={}", bound, high, low, body), 90, move || run(bound, high, low, 3, body, 12));
+        }
+    }
 }
